@@ -326,7 +326,8 @@ class Concretiser:
                 out.append(self.wrap_dir([self.attr_text(name, b["c"])], b["ch"]))
                 # only BETWEEN branches: after the last one the filler would join a following text node
                 if not self.plain and self.rnd.random() < 0.3 and (i < len(n["brs"]) - 1 or n["hasElse"]):
-                    out.append(self.rnd.choice(["\n", " ", "<!-- between -->"]))
+                    # (several comments in a row keep their order wherever the parser puts them)
+                    out.append(self.rnd.choice(["\n", " ", "<!-- between -->", "<!-- one --><!-- two -->", "<!-- one -->\n<!-- two -->\n<!--3-->"]))
             if n["hasElse"]:
                 out.append(self.wrap_dir(["wx:else"], n["els"]))
             return "".join(out)
